@@ -22,7 +22,9 @@ type prodCfg struct {
 	n      int    // list/range: number of items
 }
 
-var c05Raised = []string{"StopIteration", "StopIteration()", "StopIteration(9)", "ValueError", "KeyError", "IndexError"}
+// Exception is the base class of StopIteration and LookupError the base class of IndexError:
+// neither ends an iteration
+var c05Raised = []string{"StopIteration", "StopIteration()", "StopIteration(9)", "ValueError", "KeyError", "IndexError", "Exception", "LookupError"}
 
 // ends reports whether raising r inside producer kind k ends the iteration cleanly.
 func c05Ends(kind, r string) bool {
